@@ -12,6 +12,7 @@ let () =
     | "validate" -> M_validate.handle
     | "lints" -> M_lints.handle
     | "emit" -> M_emit.handle
+    | "request" -> M_request.handle
     | _ -> prerr_endline ("unknown component " ^ comp); exit 2 in
   let out = Buffer.create 65536 in
   (try while true do
